@@ -374,6 +374,8 @@ pub broadcast axiom fn axiom_split_some(s: Seq<char>)
     ensures (#[trigger] str_split_once(s, "!!!"@)) is Some;
 
 pub broadcast group group_verif_str_axioms {
+    axiom_suffix_contains_sep,
+    axiom_parts_strings,
     axiom_cow_str_deref,
     axiom_to_string_string,
     axiom_pat_str,
@@ -483,6 +485,49 @@ impl vstd::std_specs::cmp::PartialEqSpecImpl for SignalKind {
     open spec fn obeys_eq_spec() -> bool { true }
     open spec fn eq_spec(&self, other: &SignalKind) -> bool { *self == *other }
 }
+
+// ---- R6 (rename matcher, R8b): string sets of output names, key iteration (A-adapters)
+/// parts(id) as a set of Strings
+pub uninterp spec fn parts_strings(id: Seq<char>) -> Set<String>;
+pub broadcast axiom fn axiom_parts_strings(id: Seq<char>, p: String)
+    ensures #[trigger] parts_strings(id).contains(p) <==> parts(id).contains(p@);
+
+/// `E.split(":::").map(|x| x.to_string()).collect::<HashSet<String>>()`
+#[verifier::external_body]
+fn verif_parts_set<A: VStr + ?Sized>(s: &A) -> (r: HashSet<String>)
+    ensures r@ == parts_strings(s.vs()),
+{
+    unimplemented!()
+}
+
+/// `A.intersection(&B).count()`
+#[verifier::external_body]
+fn verif_intersection_count(a: &HashSet<String>, b: &HashSet<String>) -> (r: usize)
+    ensures r == a@.intersect(b@).len(),
+{
+    unimplemented!()
+}
+
+/// `for k in H.keys()`: every key exactly once, in an unspecified order
+#[verifier::external_body]
+fn verif_map_keys<'a>(m: &'a HashMap<String, String>) -> (r: std::vec::IntoIter<&'a String>)
+    ensures
+        r.obeys_prophetic_iter_laws(),
+        r.decrease().is_some(),
+        forall|i: int| 0 <= i < r.remaining().len() ==> m@.contains_key(*#[trigger] r.remaining()[i]),
+        forall|k: String| #![trigger m@.contains_key(k)] m@.contains_key(k) ==> exists|i: int| 0 <= i < r.remaining().len() && *(#[trigger] r.remaining()[i]) == k,
+{
+    unimplemented!()
+}
+
+pub assume_specification<P: core::str::pattern::Pattern>[ str::ends_with::<P> ](s: &str, p: P) -> (r: bool)
+    where for<'a> P::Searcher<'a>: core::str::pattern::ReverseSearcher<'a>,
+    ensures r == str_ends_with(s@, pat_view(p));
+
+/// a string that ends with "!!!<something>" contains "!!!"
+pub broadcast axiom fn axiom_suffix_contains_sep(s: Seq<char>, d: Seq<char>)
+    requires #[trigger] str_ends_with(s, key_suffix(d)),
+    ensures str_contains_sep(s);
 
 // ---- R8(b): result of try_finding_renamed_multi_output_job (body not verified)
 pub uninterp spec fn renamed_id(missing_up: Seq<char>, down: Seq<char>, h: Map<String, String>) -> Option<Seq<char>>;
